@@ -12,13 +12,13 @@ CHECKS = {
         category='exploration',
         text='Generated-input search with four oracles (round trip, independent reference decoder, reference encoder choosing arbitrary legal formats, raw-byte differential). The boundary sets named by the property are enumerated completely; nested values and byte streams are sampled. Right level: the codec is a pure function of its input, so generated search against a spec-derived reference decides it directly.',
         design_ref='DESIGN.md section 4 (C14)',
-        note='Trusts vlib/ref/msgpack_ref.py (self-tested against spec vectors each run), CPython struct/int.to_bytes; map keys restricted to hashable Python values; compatibility mode off.'),
+        note='Trusts vlib/ref/msgpack_ref.py (self-tested against spec vectors each run), CPython struct/int.to_bytes; map keys restricted to what a Python dict can hold (nil, bool, int, float, str, bytes, ext, arrays of those; no maps as keys, no keys that collide as Python values); compatibility mode off.'),
     'C07': dict(
         technique='property-based differential testing: Hypothesis-generated directory trees, importlib (PathFinder / resolve_name / pkgutil) as reference model',
         category='exploration',
         text='Every generated tree is materialised on disk and every derived absolute name, relative specifier and import-line completion is compared with what importlib computes for the same (roots + sys.path). Differential against the real import machinery is the strongest executable oracle for this property; trees are sampled, the queries per tree are enumerated completely.',
         design_ref='DESIGN.md section 4 (C07)',
-        note='Trusts importlib/pkgutil of CPython 3.12; only .py files are generated (extension modules referenced by name); namespace packages and module/package twins are outside the property domain.'),
+        note='Trusts importlib/pkgutil of CPython 3.12; source trees hold .py files (real extension modules referenced by name); compiled modules inside trees are copies of real lib-dynload files under other dotted names, one child process per tree, roots on and off sys.path; namespace packages and module/package twins are outside the property domain.'),
     'C01': dict(
         technique='property-based differential testing against CPython itself: Hypothesis program generator + dynref (AST instrumentation, exhaustive decision enumeration with replay) as execution oracle',
         category='exploration',
@@ -36,13 +36,13 @@ CHECKS = {
         category='exploration',
         text='Both directions of the reaching-definitions relation: no phantom alternatives, has_undefined exactly when some path is unbound, E02 for never-bound names. Only programs whose whole decision space was enumerated are used, so "on no path" is decided per program; the program space is sampled.',
         design_ref='DESIGN.md sections 3.1, 4 (C03)',
-        note='Loop bound 2; names routed through global/nonlocal and names another scope/builtin/star import could supply are excluded from the undefined/never-bound checks; listed finding "flow graph ignores return" is matched only when the discrepancy vanishes on the return-neutralised variant.'),
+        note='Loop bound 2; names routed through global/nonlocal are excluded from the definition checks (a global-declared read that nothing binds at module level must still be flagged) and names another scope/builtin/star import could supply are excluded from the undefined/never-bound checks; listed finding "flow graph ignores return" is matched only when the discrepancy vanishes on the return-neutralised variant.'),
     'C04': dict(
         technique='property-based testing over query histories: permutation enumeration / sampled orders against a fresh-first baseline; Hypothesis operation sequences on one Project vs a new Project',
         category='exploration',
         text='The oracle is supp itself on a fresh state: every read is first answered on a fresh analysis, then the same reads are asked on one analysis object in all permutations (small modules) or forward/reverse/inside-out/every-read-first/random orders, and lint()/location() must agree with the per-read answers; project-level request sequences (single requests and bursts over several positions of one line, over attribute/loop modules, a package with relative imports and a top-level script) are compared request by request with a new Project; on real files a sample of attribute accesses is evaluated front to back, back to front and first-on-fresh, and all must agree. Decides order-independence (memoisation transparency), which no single-order unit test can see.',
         design_ref='DESIGN.md section 4 (C04)',
-        note='Says nothing about correctness of the baseline (C01-C03 do). Real files: baselines for a sample of reads (loop reads preferred); all reads compared across orders.'),
+        note='Says nothing about correctness of the baseline (C01-C03 do). Three listed findings (instance attribute tables kept although cut by the re-entrancy guard, in two shapes; star-import cycle) each with a classifier of its own; deep alias chains in a project module are asked in generated orders. Real files: baselines for a sample of reads (loop reads preferred); all reads compared across orders.'),
     'C08': dict(
         technique='fuzzing / property-based robustness testing with a semantic oracle (ast.parse on the text and on the cursor-marked text), exception bucketing by (entry point, exception class, innermost supp frame); atheris-free quick tier, corpus + mutation + generated streams',
         category='exploration',
@@ -62,11 +62,11 @@ CHECKS = {
         design_ref='DESIGN.md section 4 (C13)',
         note='Variants that do not parse to the identical AST are discarded and counted (0.2% on this tree); NAME-token ordinals identify bindings across layouts.'),
     'C12': dict(
-        technique='property-based testing of the completion contract: regex oracle for the prefix, well-formedness predicate for proposals, metamorphic relation marked vs unmarked analysis (transparency); enumerated preceding-character classes + corpus and generated positions',
+        technique='property-based testing of the completion contract: textual oracle for the prefix (str.isidentifier run), well-formedness predicate for proposals, metamorphic relation marked vs unmarked analysis (transparency); enumerated preceding-character classes + corpus and generated positions',
         category='exploration',
         text='Three oracles at every sampled cursor: the prefix must equal the identifier characters left of the cursor (pure text), the proposal list must be sorted / duplicate-free / identifiers / marker-free, and inserting the cursor must not change the analysis (proposals equal what the unmarked analysis makes visible there, for bare names and for `expr.`). The preceding-character classes the property lists are enumerated in synthetic lines.',
         design_ref='DESIGN.md section 4 (C12)',
-        note='Positions where the marked text does not parse are skipped (SyntaxError is allowed there, C08 owns that rule); non-ASCII lines skipped.'),
+        note='Positions where the marked text does not parse are skipped (SyntaxError is allowed there, C08 owns that rule); identifier characters are decided with str.isidentifier; non-ASCII lines are included (cursor columns are characters, the unmarked analysis is keyed by parser byte columns).'),
     'C10': dict(
         technique='property-based differential testing against a purely syntactic reference model (own AST walk, no flow analysis) over generated modules (binding kind x scope kind x name shape) and real files',
         category='exploration',
@@ -90,7 +90,7 @@ CHECKS = {
         category='exploration',
         text='Histories of rewrite / touch / create / request operations are applied to a long-lived Project (requests inside check_changes, as the server does); after every request the reply must equal that of a Project created at that moment. All histories up to length 3 over a reduced alphabet plus every request;edit;edit;request history (quick) / up to length 4 over the full alphabet of 14 edits and 16 requests (thorough) are enumerated; longer ones come from a rule-based state machine that shrinks whole sequences.',
         design_ref='DESIGN.md section 4 (C09)',
-        note='One fixed import graph (diamond, a chain of length 3 below the requesting file, an import cycle, a relative-import package, late-created modules and package) whose module contents are functions of toggles; modification times from a harness counter via os.utime; order inside alternative lists normalised (C17).'),
+        note='One fixed import graph (diamond, a chain of length 3 below the requesting file, an import cycle, a relative-import package, late-created modules and package, a module deleted and written again, an import under a global declaration) whose module contents are functions of toggles; modification times from a harness counter via os.utime; order inside alternative lists normalised (C17).'),
     'C17': dict(
         technique='property-based testing across processes: generated and corpus requests with multi-alternative answers replayed in fresh interpreters under different PYTHONHASHSEED values and heap layouts; byte-identical serialisation oracle',
         category='exploration',
@@ -102,13 +102,13 @@ CHECKS = {
         category='exploration',
         text='Each generated operation sequence is sent through the real client to a real server process and evaluated in lockstep on an identical in-process Project; replies must be equal up to tuple->list, failures must surface on the client with the server-side message, and after every fault the next request must still be answered by the same live child. Payload sizes cross every msgpack length boundary up to 4 MiB.',
         design_ref='DESIGN.md section 4 (C15)',
-        note='One server per sequence; the expected outcome is computed by calling the Server methods directly on a Project the harness builds (neither Server.process nor Server.configure, both under test, are used by the mirror); fixed sequences around a request that keeps the server busy for 6-12 s run beside the state machines; quick tier runs without Hypothesis shrinking (sequences are <= 12 steps).'),
+        note='One server per sequence; the expected outcome is computed by calling the Server methods directly on a Project the harness builds (neither Server.process nor Server.configure, both under test, are used by the mirror); fixed sequences around a request that keeps the server busy for 6-12 s and sequences under the server\'s default logging (hundreds of failing requests, failing requests with very large messages) run beside the state machines; every call runs under a reply watchdog; repeated stateful eval sources are judged against a function body built by the harness, not against Server.eval; quick tier runs without Hypothesis shrinking (sequences are <= 12 steps).'),
     'C16': dict(
         technique='schedule exploration: harness-owned deterministic scheduler (sys.settrace line events as yield points, fake Thread/Lock, Environment._run itself scheduled with only subprocess.Popen and multiprocessing.connection.Client replaced), exhaustive DFS with replay under a preemption bound + Hypothesis-generated schedules; fault injection with a real subprocess for close / disconnect / launch failure',
         category='exploration',
         text='The schedule becomes a generated input: every interleaving with at most 2 (quick) / 3 (thorough) preemptions at source-line granularity of supp/remote.py is enumerated for every scenario of up to three threads doing prepare()/first calls (also after a completed prepare, across close + second session with and without a configured first session, and with close() racing prepare()), checking one launch per session, no exception, every call answered with its own reply, no deadlock. Real-process runs decide the close / disconnect / launch-failure clauses.',
         design_ref='DESIGN.md section 4 (C16)',
-        note='Line granularity of remote.py only (no races inside multiprocessing.connection); the preemption-bounded part is exhaustive for its bound; liveness bounds of the real-process runs are 10-12 s.'),
+        note='Line granularity of remote.py only (no races inside multiprocessing.connection); the preemption-bounded part is exhaustive for its bound; liveness bounds of the real-process runs are 10-12 s; a deadlocked schedule is reported as a violation and its threads are abandoned; launch failure is exercised with an unstartable, an exiting and a too slow interpreter.'),
 }
 
 NOT_YET = 'not claimed'
